@@ -231,6 +231,23 @@ def SOP.destroy (p : SOP) (c : Nat) : SOP :=
 
 def SOP.avail (p : SOP) : Nat := p.head.avail
 
+/-- `create(args…)` whose `T` constructor THROWS (round 3b), after `fix: static_object_pool::create
+returns the cell when the constructor throws`: `ptr = pool_alloc(&head); if (!ptr) return nullptr;`
+then a guard object whose destructor does `pool_free(&head, ptr)` unless the placement `new`
+completed.  `true` = the exception reaches the caller.  No object comes into existence. -/
+def SOP.createThrow (p : SOP) : Bool × SOP :=
+  let (ret, h) := p.head.alloc
+  match ret with
+  | none => (false, { p with head := h })
+  | some c => (true, { p with head := (h.release c).1 })
+
+/-- the routine as it was: nothing returns the cell -/
+def SOP.createThrowOrig (p : SOP) : Bool × SOP :=
+  let (ret, h) := p.head.alloc
+  match ret with
+  | none => (false, { p with head := h })
+  | some _ => (true, { p with head := h })
+
 /-! ## compat/mem/lin_malloc.cpp, lin_realloc.cpp
 
 `struct __freelist { size_t sz; struct __freelist *nx; }`.  A chunk is its
